@@ -578,6 +578,17 @@ public:
         {
             shrinkToSize(theSize);
         }
+        else if (m_size < theSize && theSize > m_allocation &&
+                 m_size != 0 && &theValue >= m_data && &theValue < m_data + m_size)
+        {
+            // theValue is one of our own elements and the block has to
+            // move: fill a copy while the element is still in place.
+            ThisType    theTemp(*this, *m_memoryManager, theSize);
+
+            theTemp.resize(theSize, theValue);
+
+            swap(theTemp);
+        }
         else if (m_size < theSize)
         {
             // Reserve memory up-front...
